@@ -16,7 +16,6 @@ NA = {
     "C24": "encoders/parsers are String-building code plus nom combinators; outside str reasoning of both verifiers",
     "C26": "prost-reflect dynamic messages and descriptor files (external crate, data-dependent)",
     "C27": "'matches the published algorithm' needs an independent reference implementation: differential testing, not a contract on vrl code",
-    "C28": "laws over Unicode strings and IndexSet/BTreeMap iteration; nothing loop-free or Seq-expressible without rewriting the code",
     "C30": "pest-generated parser + regex-based unescape; no contract within reach decides the round-trip",
     "C32": "grok compiles to onig/fancy-regex patterns (C library / regex engines)",
     "C33": "spans come from the LALRPOP lexer over arbitrary source text, rendering is codespan_reporting; no per-function contract captures every diagnostic of every source",
